@@ -40,6 +40,8 @@ InvalidChecksum: ...
 '8601.11.17947'
 >>> to_iban('8601 11 17947')
 'NO93 8601 11 17947'
+>>> to_iban('4090403')
+'NO3400004090403'
 """
 
 from stdnum import luhn
@@ -89,6 +91,8 @@ def to_iban(number):
     """Convert the number to an IBAN."""
     from stdnum import iban
     separator = ' ' if ' ' in number else ''
+    if len(compact(number)) == 7:
+        number = '0000' + compact(number)  # put back the postgiro bank code
     return separator.join((
         'NO' + iban.calc_check_digits('NO00' + number),
         number))
